@@ -595,7 +595,7 @@ fn oracle(c: &CrashCase, info: &mut Case) -> Result<(), String> {
 }
 
 pub fn run(ctx: &Ctx) {
-    ctx.explore("crash", ctx.tier.pick(112, 1500), 16, case_strategy, oracle);
+    ctx.explore("crash", ctx.tier.pick(112, 6000), 16, case_strategy, oracle);
     ctx.bump_extra("crash_runs", CRASH_RUNS.load(std::sync::atomic::Ordering::Relaxed));
     ctx.bump_extra("crash_runs_strictly_inside_an_operation", MID_RUNS.load(std::sync::atomic::Ordering::Relaxed));
     ctx.bump_extra("crash_points_skipped_run_diverged", SKIPPED_POINTS.load(std::sync::atomic::Ordering::Relaxed));
